@@ -11,10 +11,12 @@ META = dict(
                'where the distance is the ellipse test called with centre, semi-major axis and eccentricity interpolated linearly between the two bracketing '
                'cross sections (the deepest one below it), the rotation angle through interpolate_angle_across_zero at the same fraction, and above the '
                'shallowest cross section the half-ellipsoid x^2/a^2+y^2/b^2+z^2/c^2 of the first cross section; the ellipse test computes '
-               '(x\'/a)^2+(y\'/b)^2 and reports > 1 for an ellipse without area.',
+               '(x\'/a)^2+(y\'/b)^2 and reports > 1 for an ellipse without area. The surface position the tests are made on: NaturalCoordinate(position, cs) stores '
+               'cs.natural_coordinate_system() and cs.cartesian_to_natural_coordinates(position) unchanged (implementations: C09), and its surface point / '
+               'surface coordinates are (c0, c1) in Cartesian and (c1, c2) = (longitude, latitude) in spherical worlds, any other system being refused by an exception.',
     level_note='Trusted: translator, shims, CBMC; the winding-number theorem (non-zero exactly inside a simple polygon) and that the '
                'floating-point orientation test has the sign of the exact one are mathematics outside the proof; Point<2> operators are separate units.',
-    scope='Utilities::polygon_contains_point (alias wrapper), Utilities::interpolate_angle_across_zero (plume rotation angle), Utilities::fraction_from_ellipse_center (plume ellipse test), Plume::properties (cross-section interpolation, half-ellipsoid tip, writes iff covers), Point<2> operator-/dot/norm_square; extent guard of ContinentalPlate/OceanicPlate/MantleLayer::properties (the C02 contract, run here as well)',
+    scope='Utilities::polygon_contains_point (alias wrapper), Utilities::interpolate_angle_across_zero (plume rotation angle), Utilities::fraction_from_ellipse_center (plume ellipse test), Plume::properties (cross-section interpolation, half-ellipsoid tip, writes iff covers), Point<2> operator-/dot/norm_square; Objects::NaturalCoordinate (constructor from array, get_surface_point, get_surface_coordinates); extent guard of ContinentalPlate/OceanicPlate/MantleLayer::properties (the C02 contract, run here as well)',
     not_covered=['the winding-number kernel polygon_contains_point_implementation itself (contract and ghost definition are written - unit polygon_impl - but the proof does not finish in the time budget; it is not counted)', 'the semi-major axis used for the ellipse test above the shallowest cross section (half-ellipsoid taper inside the tip branch of Plume::properties)', 'sign-exactness of the floating-point orientation predicate'],
     enforced_elsewhere={'Point2_op_sub': 'C04/point2_sub', 'Point2_dot': 'C04/point2_dot', 'Point2_norm_square': 'C04/point2_norm_square',
                         'Utilities_polygon_contains_point_implementation': 'C04/polygon_impl'},
@@ -70,6 +72,21 @@ UNITS_ALL = [
     dict(name='polygon_wrapper', enforce='Utilities_polygon_contains_point', contracts='c04_polygon.c', harness='h_polygon_wrapper',
          targets=[dict(tu=UT, qual='WorldBuilder::Utilities::polygon_contains_point')],
          aliases=ALIASES, stub=[FN], nothrow=[FN], replace=[FN], outline_fp='all', defines=dict(DEF), expect_fail=['REACHABILITY-GUARD']),
+]
+
+NC = 'source/world_builder/objects/natural_coordinate.cc'
+_CSI = ['CoordinateSystems_Interface_natural_coordinate_system', 'CoordinateSystems_Interface_cartesian_to_natural_coordinates']
+UNITS_ALL += [
+    dict(name='natural_ctor', enforce='NATURAL_CTOR', contracts='c04_natural.c', harness='h_natural_ctor',
+         targets=[dict(tu=NC, qual='WorldBuilder::Objects::NaturalCoordinate::NaturalCoordinate', sig='const std::array<double, 3> &', cname='NATURAL_CTOR')],
+         stub=_CSI, nothrow=_CSI, replace=_CSI, outline_fp='all', unwind_complete=4, defines=dict(DEF), expect_fail=['REACHABILITY-GUARD']),
+    dict(name='natural_surface_point', enforce='Objects_NaturalCoordinate_get_surface_point', contracts='c04_natural.c', harness='h_natural_surface_point',
+         targets=[dict(tu=NC, qual='WorldBuilder::Objects::NaturalCoordinate::get_surface_point')],
+         outline_fp='all', unwind_complete=4, defines=dict(DEF), expect_fail=['REACHABILITY-GUARD'],
+         canaries=[(r'(case 1:\n\s*coordinate\.point\.e\[\(\(\(unsigned long\)0\)\)\] = this_->coordinates\.e\[)\(\(unsigned long\)1\)\]', r'\1((unsigned long)0)]', 'spherical surface point takes the radius as longitude')]),
+    dict(name='natural_surface_coordinates', enforce='Objects_NaturalCoordinate_get_surface_coordinates', contracts='c04_natural.c', harness='h_natural_surface_coordinates',
+         targets=[dict(tu=NC, qual='WorldBuilder::Objects::NaturalCoordinate::get_surface_coordinates')],
+         outline_fp='all', unwind_complete=4, defines=dict(DEF), expect_fail=['REACHABILITY-GUARD']),
 ]
 
 # the area-feature extent guard ("writes iff covers") is the C02 contract; run it here for one family
